@@ -395,7 +395,13 @@ func main() {
 				minRecall = r.Recall
 			}
 			if r.Recall <= 0.8 {
-				run.Violation("recall-below-0.8", fmt.Sprintf("dim=%d n=%d stream=%d: mean recall@10 = %.3f", r.Dim, r.N, r.Stream, r.Recall), r)
+				// keyed by the input class (dimension, size) and a band, not by the random stream: a class in which
+				// every stream misses the floor is one finding; a further drop (below 0.6) is a different one
+				band := "0.6-to-0.8"
+				if r.Recall < 0.6 {
+					band = "below-0.6"
+				}
+				run.Violation(fmt.Sprintf("recall-below-0.8:dim%d:n%d:%s", r.Dim, r.N, band), fmt.Sprintf("dim=%d n=%d stream=%d: mean recall@10 = %.3f", r.Dim, r.N, r.Stream, r.Recall), r)
 			}
 		}
 	}
@@ -436,8 +442,9 @@ func recallMain(thorough bool) {
 	if thorough {
 		dims, ns, streams, nq = []int{8, 16, 32, 64}, []int{2000, 5000}, 3, 200
 	}
+	// a FIXED finite family (documented as such): the streams do not depend on VERIF_SEED, so that what a run reports
+	// about a class does not change from one invocation to the next
 	seed := uint64(0)
-	fmt.Sscan(os.Getenv("VERIF_SEED"), &seed)
 	var out []recallRes
 	for _, dim := range dims {
 		for _, n := range ns {
